@@ -126,6 +126,7 @@ PLAN = {
         "packages": ["vsim"],
         "engines": [
             {"name": "s1-arm64", "argv": [VSIM, "arm64", "--property", "C15", "--modes", "fn,bool"]},
+            {"name": "s2", "argv": [VSIM, "s2", "--property", "C15", "--variants", "arm64"]},
             {"name": "fuzz-encoders", "thorough_only": True, "argv": FUZZ + ["--property", "C15"]},
         ],
     },
@@ -134,6 +135,7 @@ PLAN = {
         "packages": ["vsim"],
         "engines": [
             {"name": "s1-arm", "argv": [VSIM, "arm", "--property", "C16", "--modes", "fn,bool"]},
+            {"name": "s2", "argv": [VSIM, "s2", "--property", "C16", "--variants", "arm"]},
             {"name": "fuzz-encoders", "thorough_only": True, "argv": FUZZ + ["--property", "C16"]},
         ],
     },
@@ -260,14 +262,14 @@ META = {
         "level": "exploration",
         "design_ref": "DESIGN.md §4 C15, §2.2",
         "technique": "property-based testing: proptest-generated and exhaustively swept (func, trampoline, fake) tuples run through the real AArch64 encoder; oracle = independent A64 decoder with symbolic registers",
-        "text": "The real patch_arm64.rs / arm64_codegenerator.rs (Linux and macOS cfg variants) are executed on the host for ~7*10^5 (quick) to >2*10^7 (thorough) generated cases plus exhaustive sub-sweeps (every 16-bit chunk of the fake address in every position; every word displacement within 80 words of the +/-128 MiB edges; ADRP page differences), and every byte they emit is decoded by an independent A64 decoder that must arrive at exactly the trampoline and then exactly the fake (or x0=value; ret), writing only x9..x17. Sampling, not proof: absence of a counterexample in the explored set.",
+        "text": "The real patch_arm64.rs / arm64_codegenerator.rs (Linux and macOS cfg variants) are executed on the host for ~7*10^5 (quick) to >2*10^7 (thorough) generated cases plus exhaustive sub-sweeps (every 16-bit chunk of the fake address in every position; every word displacement within 80 words of the +/-128 MiB edges; ADRP page differences), and every byte they emit is decoded by an independent A64 decoder that must arrive at exactly the trampoline and then exactly the fake (or x0=value; ret), writing only x9..x17. A second engine (s2) runs the same patcher together with the unmodified common.rs against a model libc and follows the bytes found in (real, low) memory from the entry to the end; it only uses `PatchTrait::replace_function_*`, so it still decides when a change to the crate's internals stops the shim-based engine from building. Sampling, not proof: absence of a counterexample in the explored set.",
         "note": "Trusts: rustc; the three textual rewrites in vsim/build.rs; my A64 decoder (cross-checked against llvm-mc in `vsim selftest`); the 7-item shim of common.rs. Code is judged from emitted bytes, never executed on AArch64; dsb/isb barriers are not visible.",
     },
     "C16": {
         "level": "exploration",
         "design_ref": "DESIGN.md §4 C16, §2.2",
         "technique": "property-based testing: proptest-generated (entry, fake) pairs in the three entry classes through the real ARM patcher; oracle = independent A32/T32 decoder with Align(PC,4) literal addressing + AAPCS32 register-discipline predicate",
-        "text": "The real patch_arm.rs is executed on the host for 3*10^5 (quick) to 3*10^7 (thorough) generated cases over all 32-bit targets/fakes in the three entry classes; the 12 written bytes are decoded by an independent A32/T32 decoder (literal load must read the word holding the fake inside the written range, then BX; guard must describe exactly the overwritten range; forced-boolean literals are resolved back to the host-compiled return_true/false and executed). The register-discipline part has two KNOWN findings (r7 in Thumb, r9 in ARM state), excluded by exact signature so the rest of the statement is still searched.",
+        "text": "The real patch_arm.rs is executed on the host for 3*10^5 (quick) to 3*10^7 (thorough) generated cases over all 32-bit targets/fakes in the three entry classes; the 12 written bytes are decoded by an independent A32/T32 decoder (literal load must read the word holding the fake inside the written range, then BX; guard must describe exactly the overwritten range; forced-boolean literals are resolved back to the host-compiled return_true/false and executed). A second engine (s2: unmodified common.rs + model libc, bytes read back from real low memory) follows the entry after every installation and demands the same destination; it survives changes to the crate's internal types. The register-discipline part has two KNOWN findings (r7 in Thumb, r9 in ARM state), excluded by exact signature so the rest of the statement is still searched.",
         "note": "Trusts: rustc; vsim/build.rs rewrites; my A32/T32 decoder (cross-checked against llvm-mc); pointer truncation `as u32` on a 64-bit host is faithful only for addresses < 2^32, which is what is generated. Never executed on ARM hardware.",
     },
 }
